@@ -1671,7 +1671,7 @@ namespace adept {
       Index j_start, j_end_plus_1, index, index_stride;
       Index gradient_ind = gradient_index();
       vec.reserve(vec.size() + Engine::data_size(dimension_, offset_));
-      for (Index i; i < dimension_; ++i) {
+      for (Index i = 0; i < dimension_; ++i) {
 	Engine::get_row_range(i, dimension_, offset_, 
 			      j_start, j_end_plus_1, index, index_stride);
 	for (Index j = j_start; j < j_end_plus_1; ++j, index += index_stride) {
